@@ -404,6 +404,8 @@ func (c *Check) optionStore() {
 					c.ok("C10-R3", key, p.relFile(call.Pos()), sc.Name()+" applied to the option store in configure", "the designated writer, under currentMu")
 				case rk == rParam && f.Signature.Recv() != nil && structName(f.Signature.Recv().Type()) == "driver.config":
 					c.ok("C10-R3", key, p.relFile(call.Pos()), sc.Name()+" applied in "+fnName(f), "receiver is the method's own receiver (checked at its call sites)")
+				case rk == rParam && configParamOK(p, f, recv, 0):
+					c.ok("C10-R3", key, p.relFile(call.Pos()), sc.Name()+" applied in "+fnName(f)+" to a config handed in by its callers", "every call site passes a local copy, or the option store from configure (the designated writer, under currentMu)")
 				default:
 					c.bad("C10-R3", key, p.relFile(call.Pos()), fmt.Sprintf("%s is applied to a %s-rooted config in %s", sc.Name(), rk, fnName(f)))
 				}
@@ -437,4 +439,73 @@ func globalRefs(p *Program, g *ssa.Global) []ssa.Instruction {
 		}
 	}
 	return out
+}
+
+// configParamOK: v is (rooted at) a parameter of f, and at every static call site of f the
+// corresponding argument is a local copy of the configuration, the option store passed by
+// configure, or again such a parameter of the caller.
+func configParamOK(p *Program, f *ssa.Function, v ssa.Value, depth int) bool {
+	if depth > 3 {
+		return false
+	}
+	var par *ssa.Parameter
+	for x := v; x != nil && par == nil; {
+		switch y := x.(type) {
+		case *ssa.Parameter:
+			par = y
+		case *ssa.FieldAddr:
+			x = y.X
+		case *ssa.UnOp:
+			x = y.X
+		default:
+			x = nil
+		}
+	}
+	if par == nil {
+		return false
+	}
+	idx := -1
+	for i, q := range f.Params {
+		if q == par {
+			idx = i
+		}
+	}
+	if idx < 0 {
+		return false
+	}
+	sites := 0
+	for g := range p.AllFns {
+		if !fnInModule(g) || g.Blocks == nil {
+			continue
+		}
+		for _, b := range g.Blocks {
+			for _, ins := range b.Instrs {
+				var ops []*ssa.Value
+				uses := false
+				for _, op := range ins.Operands(ops) {
+					if op != nil && *op == ssa.Value(f) {
+						uses = true
+					}
+				}
+				if !uses {
+					continue
+				}
+				call, ok := ins.(ssa.CallInstruction)
+				if !ok || call.Common().StaticCallee() != f || idx >= len(call.Common().Args) {
+					return false // used as a value
+				}
+				sites++
+				arg := call.Common().Args[idx]
+				rk, _ := rootOf(arg, 0, map[ssa.Value]bool{})
+				switch {
+				case rk == rFresh:
+				case rk == rGlobal && g.Name() == "configure":
+				case rk == rParam && configParamOK(p, g, arg, depth+1):
+				default:
+					return false
+				}
+			}
+		}
+	}
+	return sites > 0
 }
